@@ -1,5 +1,6 @@
 import I2N.Lemmas.Trav
 import I2N.Lemmas.TravLoc
+import I2N.Lemmas.TravProgress
 import I2N.Model.TravMon
 /-!
 # C08 — Tests run only on their own worker and are told where their setup lives
@@ -164,5 +165,54 @@ example : ∃ str, locOf ((pullLocations gSub sSub 1).nd 1).getLoc "vm1" = some 
   locations_complete gSub sSub 1 rfl (by decide) 0 ["vm1"] (by decide) "vm1" (by decide) _ (by decide)
 
 example := locations_sound_partial gSub sSub 1 rfl (by decide) rfl "vm1" _ location_swallowed_by_substring.2.1
+
+/-! ## ownership as a reachable-state invariant
+
+`ReachableF` (Lemmas/TravProgress.lean): initial state, then any sequence of `resume` steps of real workers with any
+outcomes and positive fuel (`ReachableF.reachable`: such a state is `Reachable` in the sense of C04).
+`EdgeSym g`: every edge is recorded at both ends (`edgeSymB g = true` is the decidable form). -/
+
+/-- Every node on a worker's path after the root is relevant to the worker: flat, or a copy whose name contains the
+worker's id. -/
+theorem path_owned (g : Graph) (hsym : EdgeSym g) (ncls : Nat) (store : List (String × List (String × String)))
+    (s : State) (h : ReachableF g ncls store s) (w : Nat) (hw : w < s.workers.length) :
+    ∀ x ∈ (s.wd w).path.tail, relevant g w x = true := by
+  rcases (h.pinv hsym).path w hw with h' | h'
+  · rw [h'.1]; intro x hx; simp at hx
+  · exact h'.tail
+
+/-- `runs_on_owner`, state form.  In every reachable state: a copy marked as started by `w` is relevant to `w`; the
+copy `n` a worker is executing (its pc is `.test n …`: inside the test or its result wait) has the worker's id in
+its name and is the last node of the worker's path; and under `OwnerNames` it was parsed for this worker. -/
+theorem runs_on_owner (g : Graph) (hsym : EdgeSym g) (ncls : Nat) (store : List (String × List (String × String)))
+    (s : State) (h : ReachableF g ncls store s) (n w : Nat) :
+    ((s.nd n).started = some w → relevant g w n = true) ∧
+    ((s.wd w).pc.node? = some n → g.idIn w n = true ∧ (s.wd w).path.getLast? = some n) :=
+  ⟨(h.pinv hsym).markRel n w, fun hp => ⟨((h.pinv hsym).testOwn w n hp).1, ((h.pinv hsym).testOwn w n hp).2.1⟩⟩
+
+/-- the names identify the owner: a parsed copy carries the id of worker `w` in its name iff it was parsed for `w`
+(what fails for ambiguous ids like `net1` / `cluster1.net1`, finding F4) -/
+def OwnerNames (g : Graph) : Prop :=
+  ∀ w n, (g.node n).flat = false → (g.idIn w n = true ↔ (g.node n).owner = some w)
+
+/-- `runs_on_owner`, event form.  Whenever a step of worker `w` from a reachable state emits a start event, the event
+carries `w`'s id and the class of a node `n` with `g.idIn w n` (the run decision raises otherwise:
+`foreign_worker_rejected`); under `OwnerNames` a parsed such `n` has `owner n = some w`. -/
+theorem runs_on_owner_events (g : Graph) (hsym : EdgeSym g) (ncls : Nat) (store : List (String × List (String × String)))
+    (s : State) (h : ReachableF g ncls store s) (w : Nat) (out : Outcome) (fuel : Nat)
+    (wid cls uid : String) (locs : List (String × String)) (unk : Nat)
+    (he : Event.start wid cls uid locs unk ∈ (resume g s w out fuel).2) :
+    wid = (g.worker w).id ∧ ∃ n ph, cls = clsName g n ph ∧ g.idIn w n = true ∧
+      (OwnerNames g → (g.node n).flat = false → (g.node n).owner = some w) := by
+  obtain ⟨h1, n, ph, h2, h3⟩ := resume_starts g hsym s w out fuel (h.pinv hsym) _ he
+  exact ⟨h1, n, ph, h2, h3, fun ho hf => (ho w n hf).mp h3⟩
+
+/-- non-vacuity: the two-node graph above is edge-symmetric, its first worker's first step from the initial state is
+a reachable state, and that step emits no start event for a foreign copy -/
+example : EdgeSym gSub := edgeSymB_sound (by decide)
+example : ReachableF gSub 2 [] (resume gSub (initState gSub 2 []) 0 ⟨none, 0⟩ 5).1 :=
+  .step _ 0 ⟨none, 0⟩ 5 (.init []) (by decide) (by decide)
+example := path_owned gSub (edgeSymB_sound (by decide)) 2 [] _
+  (.step _ 0 ⟨none, 0⟩ 5 (.init []) (by decide) (by decide)) 0
 
 end I2N.Props.C08
